@@ -205,20 +205,20 @@ Proof.
   rewrite <- (rev_involutive p). destruct (rev p) as [|c0 q].
   { inversion H. congruence. }
   destruct (c0 <? 128) eqn:E0.
-  { inversion H; subst. cbn [rev]. apply (try_last_spec (rev q) [w] 1); try reflexivity; try assumption.
+  { injection H as <- <-. cbn [rev]. apply (try_last_spec (rev q) [c0] 1); [|exact Hr|reflexivity|lia].
     unfold decode_rune. rewrite E0. reflexivity. }
   destruct q as [|c1 q1]; [inversion H; congruence|].
   destruct (rune_start c1).
   { cbn [rev]. rewrite <- app_assoc. cbn [app].
-    apply (try_last_spec (rev q1) [c1; c0] 2); try reflexivity; assumption. }
+    apply (try_last_spec (rev q1) [c1; c0] 2); [exact H|exact Hr|reflexivity|lia]. }
   destruct q1 as [|c2 q2]; [inversion H; congruence|].
   destruct (rune_start c2).
   { cbn [rev]. rewrite <- !app_assoc. cbn [app].
-    apply (try_last_spec (rev q2) [c2; c1; c0] 3); try reflexivity; assumption. }
+    apply (try_last_spec (rev q2) [c2; c1; c0] 3); [exact H|exact Hr|reflexivity|lia]. }
   destruct q2 as [|c3 q3]; [inversion H; congruence|].
   destruct (rune_start c3); [|inversion H; congruence].
   cbn [rev]. rewrite <- !app_assoc. cbn [app].
-  apply (try_last_spec (rev q3) [c3; c2; c1; c0] 4); try reflexivity; assumption.
+  apply (try_last_spec (rev q3) [c3; c2; c1; c0] 4); [exact H|exact Hr|reflexivity|lia].
 Qed.
 
 Example decode_last_spec_ex :
@@ -258,3 +258,519 @@ Example back_step_monotone_ex :
   decode_last_rune (sub orig 0 4) = (8364, 3) /\ decode_last_rune (sub orig 0 5) = (98, 1) /\
   4 - 3 <= 5 - 1.
 Proof. vm_compute. repeat split; discriminate. Qed.
+
+(* ------------------------------------------------------------------ B. the formatter *)
+
+(* "abc def ghi jk", the terms def@[4,7) and ghi@[8,11) *)
+Definition hl_ex_orig : bytes := [97; 98; 99; 32; 100; 101; 102; 32; 103; 104; 105; 32; 106; 107].
+Definition hl_ex_locs : list loc := [mkLoc 4 7; mkLoc 8 11].
+
+(* invariant of the loop: 0 <= curr <= f.End <= len(orig) *)
+Lemma fmt_loop_in_bounds orig fend : forall locs curr acc,
+  0 <= curr -> curr <= fend -> fend <= zlen orig -> Forall wf_oloc locs ->
+  fmt_loop orig fend curr locs acc <> None.
+Proof.
+  induction locs as [|[l|] r IH]; intros curr acc H0 H1 H2 Hwf; cbn [fmt_loop].
+  - rewrite slice_ok by lia. discriminate.
+  - pose proof (Forall_inv Hwf) as Hl. pose proof (Forall_inv_tail Hwf) as Hr.
+    cbn [wf_oloc] in Hl. unfold wf_loc in Hl.
+    destruct (l_start l <? curr) eqn:E1; [apply IH; assumption|].
+    destruct (fend <? l_end l) eqn:E2; [rewrite slice_ok by lia; discriminate|].
+    rewrite !slice_ok by lia. apply IH; try assumption; lia.
+  - apply IH; try assumption. exact (Forall_inv_tail Hwf).
+Qed.
+
+(* B1 *)
+Lemma format_in_bounds : forall orig f locs,
+  in_range (zlen orig) (f_start f) (f_end f) = true ->
+  Forall (fun ol => match ol with Some l => wf_loc l | None => True end) locs ->
+  format_segs orig f locs <> None.
+Proof.
+  intros orig f locs Hr Hwf. apply in_range_iff in Hr. unfold format_segs.
+  apply fmt_loop_in_bounds; try lia. exact Hwf.
+Qed.
+
+(* locations out of range, overlapping, unsorted and nil are all allowed *)
+Example format_in_bounds_ex :
+  let locs := [Some (mkLoc 8 11); None; Some (mkLoc 4 7); Some (mkLoc 5 9); Some (mkLoc 20 30); Some (mkLoc (-3) 2)] in
+  in_range (zlen hl_ex_orig) 2 12 = true /\
+  Forall (fun ol => match ol with Some l => wf_loc l | None => True end) locs /\
+  format_segs hl_ex_orig (mkFrag 2 12) locs = Some [(false, [99; 32; 100; 101; 102; 32]); (true, [103; 104; 105]); (false, [32])].
+Proof.
+  cbv zeta. split; [reflexivity|]. split; [|vm_compute; reflexivity].
+  repeat constructor; unfold wf_loc; cbn [l_start l_end]; lia.
+Qed.
+
+(* B2: Start <= End of every location is necessary *)
+Lemma format_inverted_refuted : exists orig f locs,
+  in_range (zlen orig) (f_start f) (f_end f) = true /\ format_segs orig f locs = None.
+Proof.
+  exists [97; 98; 99; 100; 101; 102; 103; 104; 105; 106], (mkFrag 0 10), [Some (mkLoc 5 3)].
+  vm_compute. split; reflexivity.
+Qed.
+
+(* B3 *)
+Definition marked_ok (orig : bytes) (locs : list (option loc)) (sg : bool * bytes) : Prop :=
+  fst sg = true -> exists l, In (Some l) locs /\ slice orig (l_start l) (l_end l) = Some (snd sg).
+
+Lemma plain_of_snoc acc sg : plain_of (rev (sg :: acc)) = plain_of (rev acc) ++ snd sg.
+Proof.
+  unfold plain_of. cbn [rev]. rewrite flat_map_app. cbn [flat_map]. rewrite app_nil_r. reflexivity.
+Qed.
+
+(* [acc] (reversed) spells orig[f0:curr] and each marked segment in it is the text at a location *)
+Lemma fmt_loop_faithful orig fend f0 locs0 : forall locs curr acc segs,
+  (forall x, In x locs -> In x locs0) ->
+  0 <= f0 -> f0 <= curr -> fend <= zlen orig ->
+  plain_of (rev acc) = sub orig f0 curr ->
+  Forall (marked_ok orig locs0) acc ->
+  fmt_loop orig fend curr locs acc = Some segs ->
+  plain_of segs = sub orig f0 fend /\ Forall (marked_ok orig locs0) segs.
+Proof.
+  assert (Hfin : forall curr acc segs, 0 <= f0 -> f0 <= curr ->
+    plain_of (rev acc) = sub orig f0 curr -> Forall (marked_ok orig locs0) acc ->
+    match slice orig curr fend with
+    | Some c => Some (rev ((false, c) :: acc)) | None => None end = Some segs ->
+    plain_of segs = sub orig f0 fend /\ Forall (marked_ok orig locs0) segs).
+  { intros curr acc segs H0 H1 Hp Hm H.
+    destruct (slice orig curr fend) as [c|] eqn:Es; [|discriminate].
+    apply slice_some in Es as [Hr ->].
+    assert (Hs : segs = rev ((false, sub orig curr fend) :: acc)) by congruence. subst segs. clear H. split.
+    - rewrite plain_of_snoc, Hp. cbn [snd]. apply sub_app; lia.
+    - apply Forall_rev. constructor; [intro Hf; discriminate Hf|exact Hm]. }
+  induction locs as [|[l|] r IH]; intros curr acc segs Hsub H0 H1 H2 Hp Hm H; cbn [fmt_loop] in H.
+  - exact (Hfin curr acc segs H0 H1 Hp Hm H).
+  - assert (Hsub' : forall x, In x r -> In x locs0) by (intros x Hx; apply Hsub; right; exact Hx).
+    destruct (l_start l <? curr) eqn:E1; [exact (IH curr acc segs Hsub' H0 H1 H2 Hp Hm H)|].
+    destruct (fend <? l_end l) eqn:E2; [exact (Hfin curr acc segs H0 H1 Hp Hm H)|].
+    destruct (slice orig curr (l_start l)) as [a|] eqn:Ea; [|discriminate].
+    destruct (slice orig (l_start l) (l_end l)) as [b|] eqn:Eb; [|discriminate].
+    pose proof Eb as Eb'.
+    apply slice_some in Ea as [Ra ->]. apply slice_some in Eb as [Rb ->].
+    apply (IH (l_end l) ((true, sub orig (l_start l) (l_end l)) :: (false, sub orig curr (l_start l)) :: acc)
+              segs Hsub' H0); [lia|exact H2| | |exact H].
+    + rewrite !plain_of_snoc, Hp. cbn [snd]. rewrite sub_app by lia. apply sub_app; lia.
+    + constructor; [|constructor; [intro Hf; discriminate Hf|exact Hm]].
+      intros _. exists l. split; [apply Hsub; left; reflexivity|exact Eb'].
+  - apply (IH curr acc segs); try assumption. intros x Hx. apply Hsub. right. exact Hx.
+Qed.
+
+Lemma fragment_faithful : forall orig f locs segs,
+  in_range (zlen orig) (f_start f) (f_end f) = true ->
+  format_segs orig f locs = Some segs ->
+  plain_of segs = sub orig (f_start f) (f_end f) /\
+  Forall (fun sg => fst sg = true ->
+            exists l, In (Some l) locs /\ slice orig (l_start l) (l_end l) = Some (snd sg)) segs.
+Proof.
+  intros orig f locs segs Hr H. apply in_range_iff in Hr. unfold format_segs in H.
+  apply (fmt_loop_faithful orig (f_end f) (f_start f) locs locs (f_start f) [] segs); try lia.
+  - intros x Hx. exact Hx.
+  - cbn [rev plain_of flat_map]. symmetry. apply sub_empty.
+  - constructor.
+  - exact H.
+Qed.
+
+Example fragment_faithful_ex :
+  in_range (zlen hl_ex_orig) 2 12 = true /\
+  format_segs hl_ex_orig (mkFrag 2 12) (map Some hl_ex_locs) =
+    Some [(false, [99; 32]); (true, [100; 101; 102]); (false, [32]); (true, [103; 104; 105]); (false, [32])] /\
+  sub hl_ex_orig 2 12 = [99; 32; 100; 101; 102; 32; 103; 104; 105; 32].
+Proof. vm_compute. repeat split; reflexivity. Qed.
+
+(* B4: the two formatters are [render] over the same segments *)
+Lemma format_html_some : forall b a orig f locs segs,
+  format_segs orig f locs = Some segs ->
+  format_html b a orig f locs = Some (render html_escape b a segs).
+Proof. intros b a orig f locs segs H. unfold format_html. rewrite H. reflexivity. Qed.
+
+Lemma format_ansi_some : forall b a orig f locs segs,
+  format_segs orig f locs = Some segs ->
+  format_ansi b a orig f locs = Some (render (fun x => x) b a segs).
+Proof. intros b a orig f locs segs H. unfold format_ansi. rewrite H. reflexivity. Qed.
+
+Example format_html_some_ex :
+  format_html [60; 98; 62] [60; 47; 98; 62] [97; 38; 98; 32; 99] (mkFrag 0 5) [Some (mkLoc 4 5)] =
+  Some [97; 38; 97; 109; 112; 59; 98; 32; 60; 98; 62; 99; 60; 47; 98; 62].
+Proof. vm_compute. reflexivity. Qed.
+
+(* ------------------------------------------------------------------ C. MergeOverlapping *)
+
+Lemma merge_aux_spec : forall rest first f' r',
+  merge_aux first rest = (f', r') ->
+  length r' = length rest /\
+  l_start f' = l_start first /\
+  (l_end f' = l_end first \/ exists b, In (Some b) rest /\ l_end b = l_end f') /\
+  (forall x, In (Some x) r' -> In (Some x) rest) /\
+  (wf_loc first -> Forall wf_oloc rest -> wf_loc f' /\ Forall wf_oloc r').
+Proof.
+  induction rest as [|[tl|] r IH]; intros first f' r' H; cbn [merge_aux] in H.
+  - injection H as <- <-. repeat split; auto; intros x [].
+  - destruct (overlaps first tl) eqn:Eo.
+    + destruct (merge_aux (mkLoc (l_start first) (l_end tl)) r) as [f1 r1] eqn:E1. injection H as <- <-.
+      destruct (IH _ _ _ E1) as (Hlen & Hs & He & Hin & Hwf). cbn [l_start l_end] in Hs, He.
+      split; [cbn [length]; congruence|]. split; [exact Hs|]. split; [|split].
+      * right. destruct He as [He|(b & Hb & He)].
+        -- exists tl. split; [left; reflexivity|symmetry; exact He].
+        -- exists b. split; [right; exact Hb|exact He].
+      * intros x [Hx|Hx]; [discriminate Hx|right; apply Hin; exact Hx].
+      * intros Hw HF. pose proof (Forall_inv HF) as Htl. cbn [wf_oloc] in Htl.
+        destruct Hwf as [Hw1 HF1].
+        { unfold wf_loc in *. cbn [l_start l_end]. unfold overlaps in Eo. lia. }
+        { exact (Forall_inv_tail HF). }
+        split; [exact Hw1|constructor; [exact I|exact HF1]].
+    + destruct (merge_aux first r) as [f1 r1] eqn:E1. injection H as <- <-.
+      destruct (IH _ _ _ E1) as (Hlen & Hs & He & Hin & Hwf).
+      split; [cbn [length]; congruence|]. split; [exact Hs|]. split; [|split].
+      * destruct He as [He|(b & Hb & He)]; [left; exact He|right].
+        exists b. split; [right; exact Hb|exact He].
+      * intros x [Hx|Hx]; [left; exact Hx|right; apply Hin; exact Hx].
+      * intros Hw HF. destruct (Hwf Hw (Forall_inv_tail HF)) as [Hw1 HF1].
+        split; [exact Hw1|constructor; [exact (Forall_inv HF)|exact HF1]].
+  - destruct (merge_aux first r) as [f1 r1] eqn:E1. injection H as <- <-.
+    destruct (IH _ _ _ E1) as (Hlen & Hs & He & Hin & Hwf).
+    split; [cbn [length]; congruence|]. split; [exact Hs|]. split; [|split].
+    * destruct He as [He|(b & Hb & He)]; [left; exact He|right].
+      exists b. split; [right; exact Hb|exact He].
+    * intros x [Hx|Hx]; [discriminate Hx|right; apply Hin; exact Hx].
+    * intros Hw HF. destruct (Hwf Hw (Forall_inv_tail HF)) as [Hw1 HF1].
+      split; [exact Hw1|constructor; [exact I|exact HF1]].
+Qed.
+
+(* C1 *)
+Lemma merge_wf : forall t,
+  Forall (fun ol => match ol with Some l => wf_loc l | None => True end) t ->
+  Forall (fun ol => match ol with Some l => wf_loc l | None => True end) (merge_overlapping t).
+Proof.
+  induction t as [|[l|] r IH]; intros HF; cbn [merge_overlapping].
+  - constructor.
+  - destruct (merge_aux l r) as [f' r'] eqn:E.
+    destruct (merge_aux_spec _ _ _ _ E) as (_ & _ & _ & _ & Hwf).
+    destruct (Hwf (Forall_inv HF) (Forall_inv_tail HF)) as [Hw1 HF1].
+    constructor; [exact Hw1|exact HF1].
+  - constructor; [exact I|apply IH; exact (Forall_inv_tail HF)].
+Qed.
+
+(* C2: every merged location starts where some location started and ends where some location ended *)
+Lemma merge_ends : forall t l, In (Some l) (merge_overlapping t) ->
+  (exists a, In (Some a) t /\ l_start a = l_start l) /\ (exists b, In (Some b) t /\ l_end b = l_end l).
+Proof.
+  induction t as [|[a0|] r IH]; intros l Hl; cbn [merge_overlapping] in Hl.
+  - destruct Hl.
+  - destruct (merge_aux a0 r) as [f' r'] eqn:E.
+    destruct (merge_aux_spec _ _ _ _ E) as (_ & Hs & He & Hin & _).
+    destruct Hl as [Hl|Hl].
+    + injection Hl as <-. split.
+      * exists a0. split; [left; reflexivity|symmetry; exact Hs].
+      * destruct He as [He|(b & Hb & He)].
+        -- exists a0. split; [left; reflexivity|symmetry; exact He].
+        -- exists b. split; [right; exact Hb|exact He].
+    + apply Hin in Hl. split; exists l; (split; [right; exact Hl|reflexivity]).
+  - destruct Hl as [Hl|Hl]; [discriminate Hl|].
+    destruct (IH l Hl) as [(a & Ha & Hsa) (b & Hb & Heb)].
+    split; [exists a|exists b]; (split; [right; assumption|assumption]).
+Qed.
+
+(* C3 *)
+Lemma merge_length : forall t, length (merge_overlapping t) = length t.
+Proof.
+  induction t as [|[l|] r IH]; cbn [merge_overlapping length]; [reflexivity| |congruence].
+  destruct (merge_aux l r) as [f' r'] eqn:E.
+  destruct (merge_aux_spec _ _ _ _ E) as (Hlen & _). cbn [length]. congruence.
+Qed.
+
+(* [2,5) absorbs [4,8) and then [7,9); [20,22) stays *)
+Example merge_ex :
+  let t := [Some (mkLoc 2 5); Some (mkLoc 4 8); None; Some (mkLoc 7 9); Some (mkLoc 20 22)] in
+  Forall (fun ol => match ol with Some l => wf_loc l | None => True end) t /\
+  merge_overlapping t = [Some (mkLoc 2 9); None; None; None; Some (mkLoc 20 22)].
+Proof.
+  cbv zeta. split; [|vm_compute; reflexivity].
+  repeat constructor; unfold wf_loc; cbn [l_start l_end]; lia.
+Qed.
+
+(* ------------------------------------------------------------------ D. the fragmenter *)
+
+Definition frag_ok (orig : bytes) (f : frag) : Prop := in_range (zlen orig) (f_start f) (f_end f) = true.
+
+Lemma runes_w_aux_len : forall s skip, (length (runes_w_aux skip s) <= length s)%nat.
+Proof.
+  induction s as [|b rest IH]; intros skip; cbn [runes_w_aux length]; [lia|].
+  destruct skip as [|k].
+  - destruct (decode_rune (b :: rest)) as [r w]. cbn [length]. specialize (IH (skip_of w)). lia.
+  - specialize (IH k). lia.
+Qed.
+
+Lemma rune_count_bounds s : 0 <= rune_count s <= zlen s.
+Proof. unfold rune_count, runes_w, zlen. pose proof (runes_w_aux_len s 0). lia. Qed.
+
+Lemma decode_suffix_width orig en : 0 <= en -> en < zlen orig ->
+  1 <= snd (decode_rune (sub orig en (zlen orig))) <= zlen orig - en.
+Proof.
+  intros H0 H1. pose proof (sub_zlen orig en (zlen orig) H0 ltac:(lia) ltac:(lia)) as Hl.
+  destruct (decode_rune_width (sub orig en (zlen orig))) as [Hw Hw'].
+  { intro E. rewrite E, zlen_nil in Hl. lia. }
+  lia.
+Qed.
+
+Lemma decode_last_prefix_width orig st : 0 < st -> st <= zlen orig ->
+  1 <= snd (decode_last_rune (sub orig 0 st)) <= st.
+Proof.
+  intros H0 H1. pose proof (sub_zlen orig 0 st ltac:(lia) ltac:(lia) H1) as Hl.
+  assert (Hne : sub orig 0 st <> []) by (intro E; rewrite E, zlen_nil in Hl; lia).
+  pose proof (decode_last_width (sub orig 0 st) Hne) as Hw. lia.
+Qed.
+
+(* the forward scan: end strictly increases and stays <= len(orig) *)
+Lemma fr_fwd_ok size orig : forall fuel en used,
+  0 <= en -> en <= zlen orig -> zlen orig - en < Z.of_nat fuel ->
+  match fr_fwd size orig fuel en used with
+  | RPanic => False | RBail => True | ROk (en', _) => en <= en' /\ en' <= zlen orig end.
+Proof.
+  induction fuel as [|f IH]; intros en used H0 H1 Hf; [lia|]. cbn [fr_fwd].
+  destruct ((en <? zlen orig) && (used <? size)) eqn:Ec; [|cbv beta iota; lia].
+  rewrite slice_ok by lia.
+  pose proof (decode_suffix_width orig en H0 ltac:(lia)) as Hw.
+  destruct (decode_rune (sub orig en (zlen orig))) as [r sz]. cbn [snd] in Hw.
+  destruct (r =? RuneError); [exact I|].
+  specialize (IH (en + sz) (used + 1) ltac:(lia) ltac:(lia) ltac:(lia)).
+  destruct (fr_fwd size orig f (en + sz) (used + 1)) as [| |[en' u']]; [exact IH|exact I|lia].
+Qed.
+
+(* a location starting at or beyond the end: no iteration *)
+Lemma fr_fwd_out size orig f en used : zlen orig <= en ->
+  fr_fwd size orig (S f) en used = ROk (en, used).
+Proof. intro H. cbn [fr_fwd]. replace (en <? zlen orig) with false by lia. reflexivity. Qed.
+
+(* ... and then the backward scan bails out (this is where 0 < size is needed) *)
+Lemma fr_back_out size orig f mb st used : zlen orig < st -> used < size ->
+  fr_back size orig (S f) mb st used = RBail.
+Proof.
+  intros H Hu. pose proof (zlen_nonneg orig). cbn [fr_back].
+  replace ((0 <? st) && (used <? size)) with true by lia.
+  replace (zlen orig <? st) with true by lia. reflexivity.
+Qed.
+
+(* the backward scan: start strictly decreases and stays >= 0 *)
+Lemma fr_back_ok size orig mb : forall fuel st used,
+  0 <= st -> st <= zlen orig -> st < Z.of_nat fuel ->
+  match fr_back size orig fuel mb st used with
+  | RPanic => False | RBail => True | ROk st' => 0 <= st' /\ st' <= st end.
+Proof.
+  induction fuel as [|f IH]; intros st used H0 H1 Hf; [lia|]. cbn [fr_back].
+  destruct ((0 <? st) && (used <? size)) eqn:Ec; [|cbv beta iota; lia].
+  replace (zlen orig <? st) with false by lia.
+  rewrite slice_ok by lia.
+  pose proof (decode_last_prefix_width orig st ltac:(lia) H1) as Hw.
+  destruct (decode_last_rune (sub orig 0 st)) as [r sz]. cbn [snd] in Hw.
+  destruct (r =? RuneError); [exact I|].
+  destruct (mb <=? st - sz); [|cbv beta iota; lia].
+  specialize (IH (st - sz) (used + 1) ltac:(lia) ltac:(lia) ltac:(lia)).
+  destruct (fr_back size orig f mb (st - sz) (used + 1)); [exact IH|exact I|lia].
+Qed.
+
+Lemma fr_minend_ok en : forall ls minend,
+  Forall nonneg_loc ls -> 0 <= minend -> minend <= en ->
+  0 <= fr_minend en minend ls /\ fr_minend en minend ls <= en.
+Proof.
+  induction ls as [|l r IH]; intros minend HF H0 H1; cbn [fr_minend]; [lia|].
+  destruct (en <? l_end l) eqn:E; [lia|].
+  apply IH; [exact (Forall_inv_tail HF)| |lia].
+  pose proof (Forall_inv HF) as Hl. unfold nonneg_loc in Hl. lia.
+Qed.
+
+(* the centering loop: offset iterations, each stepping start and end back by one rune; both stay
+   in [0, len(orig)] and (back_step_monotone) in order *)
+Lemma fr_center_ok orig : forall fuel offset st en,
+  0 <= offset -> offset < Z.of_nat fuel -> 0 <= st -> st <= en -> en <= zlen orig ->
+  match fr_center orig fuel offset st en with
+  | RPanic => False | RBail => True
+  | ROk (off', st', en') => off' = 0 /\ 0 <= st' /\ st' <= en' /\ en' <= zlen orig end.
+Proof.
+  induction fuel as [|f IH]; intros offset st en Ho Hf H0 H1 H2; [lia|]. cbn [fr_center].
+  destruct (0 <? offset) eqn:Eo; [|cbv beta iota; lia].
+  rewrite (slice_ok orig 0 st) by lia.
+  destruct (decode_last_rune (sub orig 0 st)) as [r1 s1] eqn:D1.
+  destruct (r1 =? RuneError) eqn:E1; [exact I|].
+  rewrite (slice_ok orig 0 en) by lia.
+  destruct (decode_last_rune (sub orig 0 en)) as [r2 s2] eqn:D2.
+  destruct (r2 =? RuneError) eqn:E2; [exact I|].
+  assert (Hr1 : r1 <> RuneError) by lia. assert (Hr2 : r2 <> RuneError) by lia.
+  destruct (decode_last_spec _ _ _ D1 Hr1) as [W1 _].
+  destruct (decode_last_spec _ _ _ D2 Hr2) as [W2 _].
+  rewrite sub_zlen in W1, W2 by lia.
+  pose proof (back_step_monotone orig st en r1 s1 r2 s2 ltac:(lia) H2 D1 Hr1 D2 Hr2) as Hm.
+  specialize (IH (offset - 1) (st - s1) (en - s2) ltac:(lia) ltac:(lia) ltac:(lia) Hm ltac:(lia)).
+  destruct (fr_center orig f (offset - 1) (st - s1) (en - s2)) as [| |[[off' st'] en']];
+    [exact IH|exact I|lia].
+Qed.
+
+(* one OUTER iteration *)
+Lemma fr_one_ok size orig mb l rest :
+  0 < size -> 0 <= mb -> nonneg_loc l -> Forall nonneg_loc rest ->
+  match fr_one size orig mb l rest with
+  | RPanic => False | RBail => True | ROk fg => frag_ok orig fg end.
+Proof.
+  intros Hsz Hmb Hl Hrest. pose proof Hl as [Hls Hle]. unfold fr_one, fuel_of.
+  pose proof (zlen_nonneg orig) as Hlen.
+  destruct (Z_le_gt_dec (l_start l) (zlen orig)) as [Hin|Hout].
+  2:{ rewrite fr_fwd_out by lia. cbv beta iota. rewrite fr_back_out by lia. exact I. }
+  pose proof (fr_fwd_ok size orig (S (length orig)) (l_start l) 0 Hls Hin ltac:(unfold zlen; lia)) as Hf.
+  destruct (fr_fwd size orig (S (length orig)) (l_start l) 0) as [| |[en used]]; [exact Hf|exact I|].
+  pose proof (fr_back_ok size orig mb (S (length orig)) (l_start l) used Hls Hin ltac:(unfold zlen in *; lia)) as Hb.
+  destruct (fr_back size orig (S (length orig)) mb (l_start l) used) as [| |st]; [exact Hb|exact I|].
+  cbv zeta.
+  pose proof (fr_minend_ok en (l :: rest) en (Forall_cons _ Hl Hrest) ltac:(lia) ltac:(lia)) as Hm.
+  set (minend := fr_minend en en (l :: rest)) in *.
+  rewrite (slice_ok orig minend en) by lia.
+  pose proof (rune_count_bounds (sub orig minend en)) as Hroom. rewrite sub_zlen in Hroom by lia.
+  set (room := rune_count (sub orig minend en)) in *.
+  assert (Hrs : exists rs,
+    (if mb <=? st
+     then match slice orig mb st with Some hd => Some (rune_count hd) | None => None end
+     else Some 0) = Some rs /\ 0 <= rs).
+  { destruct (mb <=? st) eqn:E; [|exists 0; split; [reflexivity|lia]].
+    rewrite slice_ok by lia. eexists. split; [reflexivity|]. apply rune_count_bounds. }
+  destruct Hrs as (rs & -> & Hrs0).
+  set (room' := if rs <? room then rs else room).
+  assert (Hr' : 0 <= room' <= zlen orig) by (subst room'; destruct (rs <? room) eqn:E; lia).
+  clearbody room'.
+  assert (Hq : 0 <= Z.quot room' 2 <= room').
+  { rewrite Z.quot_div_nonneg by lia. split; [apply Z.div_pos; lia|apply Z.div_le_upper_bound; lia]. }
+  pose proof (fr_center_ok orig (S (length orig)) (Z.quot room' 2) st en
+                ltac:(lia) ltac:(unfold zlen in *; lia) ltac:(lia) ltac:(lia) ltac:(lia)) as Hc.
+  destruct (fr_center orig (S (length orig)) (Z.quot room' 2) st en) as [| |[[off' st'] en']];
+    [exact Hc|exact I|].
+  unfold frag_ok. cbn [f_start f_end]. apply in_range_iff. lia.
+Qed.
+
+Lemma fr_outer_ok size orig : 0 < size -> forall ot mb, 0 <= mb -> Forall nonneg_loc ot ->
+  exists fs, fr_outer size orig mb ot = Some fs /\ Forall (frag_ok orig) fs.
+Proof.
+  intros Hsz. induction ot as [|l rest IH]; intros mb Hmb HF; cbn [fr_outer].
+  - exists []. split; [reflexivity|constructor].
+  - pose proof (Forall_inv HF) as Hl. pose proof (Forall_inv_tail HF) as Hr.
+    pose proof (fr_one_ok size orig mb l rest Hsz Hmb Hl Hr) as H1.
+    destruct (fr_one size orig mb l rest) as [| |fg]; [contradiction|apply IH; assumption|].
+    assert (Hle : 0 <= l_end l) by (unfold nonneg_loc in Hl; lia).
+    destruct (IH (l_end l) Hle Hr) as (fs & -> & Hfs).
+    exists (fg :: fs). split; [reflexivity|constructor; assumption].
+Qed.
+
+(* the branch for no locations (size may be anything here) *)
+Lemma fr_head_ok size orig : forall fuel en used,
+  0 <= en -> en <= zlen orig -> zlen orig - en < Z.of_nat fuel ->
+  exists en', fr_head size orig fuel en used = Some en' /\ en <= en' /\ en' <= zlen orig.
+Proof.
+  induction fuel as [|f IH]; intros en used H0 H1 Hf; [lia|]. cbn [fr_head].
+  destruct ((en <? zlen orig) && (used <? size)) eqn:Ec; [|exists en; split; [reflexivity|lia]].
+  rewrite slice_ok by lia.
+  pose proof (decode_suffix_width orig en H0 ltac:(lia)) as Hw.
+  destruct (decode_rune (sub orig en (zlen orig))) as [r sz]. cbn [snd] in Hw.
+  destruct (r =? RuneError); [exists en; split; [reflexivity|lia]|].
+  destruct (IH (en + sz) (used + 1) ltac:(lia) ltac:(lia) ltac:(lia)) as (en' & E & Hen).
+  exists en'. split; [exact E|lia].
+Qed.
+
+Lemma fragment_ok size orig ot : 0 < size -> Forall nonneg_loc ot ->
+  exists fs, fragment size orig ot = Some fs /\ Forall (frag_ok orig) fs.
+Proof.
+  intros Hsz HF. unfold fragment. destruct ot as [|l rest].
+  - pose proof (zlen_nonneg orig) as Hlen.
+    destruct (fr_head_ok size orig (fuel_of orig) 0 0 ltac:(lia) Hlen ltac:(unfold fuel_of, zlen; lia))
+      as (en & -> & Hen).
+    exists [mkFrag 0 en]. split; [reflexivity|]. constructor; [|constructor].
+    unfold frag_ok. cbn [f_start f_end]. apply in_range_iff. lia.
+  - apply fr_outer_ok; [exact Hsz|lia|exact HF].
+Qed.
+
+(* D1 *)
+Lemma fragment_in_bounds : forall size orig ot,
+  0 < size -> Forall nonneg_loc ot -> fragment size orig ot <> None.
+Proof.
+  intros size orig ot Hsz HF. destruct (fragment_ok size orig ot Hsz HF) as (fs & -> & _). discriminate.
+Qed.
+
+(* D2: fragmentSize > 0 is necessary.  With size 0 and a location starting beyond the end of the
+   text neither scan iterates, nothing bails, and orig[25:20] is evaluated *)
+Lemma fragment_size0_refuted : exists orig ot, Forall nonneg_loc ot /\ fragment 0 orig ot = None.
+Proof.
+  exists [104; 101; 108; 108; 111; 32; 119; 111; 114; 108; 100], [mkLoc 20 25].
+  split; [|vm_compute; reflexivity].
+  repeat constructor; cbn [l_start l_end]; lia.
+Qed.
+
+(* D3 *)
+Lemma fragment_wf : forall size orig ot fs,
+  0 < size -> Forall nonneg_loc ot -> fragment size orig ot = Some fs ->
+  Forall (fun f => in_range (zlen orig) (f_start f) (f_end f) = true) fs.
+Proof.
+  intros size orig ot fs Hsz HF H. destruct (fragment_ok size orig ot Hsz HF) as (fs' & E & Hfs).
+  rewrite E in H. injection H as <-. exact Hfs.
+Qed.
+
+Example fragment_ex :
+  0 < 5 /\ Forall nonneg_loc hl_ex_locs /\
+  fragment 5 hl_ex_orig hl_ex_locs =
+    Some [mkFrag 3 8; mkFrag 8 13] /\
+  fragment 5 [97; 195; 169; 98; 99; 100; 101; 102] [] = Some [mkFrag 0 6].
+Proof.
+  split; [lia|]. split; [|vm_compute; split; reflexivity].
+  repeat constructor; cbn [l_start l_end]; lia.
+Qed.
+
+(* ------------------------------------------------------------------ E. composition *)
+
+Lemma highlight_hyps ot : Forall (fun l => 0 <= l_start l /\ wf_loc l) ot ->
+  Forall nonneg_loc ot /\
+  Forall (fun ol => match ol with Some l => wf_loc l | None => True end) (map Some ot).
+Proof.
+  induction 1 as [|l r [H0 Hw] _ [IH1 IH2]]; [split; constructor|]. cbn [map].
+  split; constructor; try assumption. unfold nonneg_loc, wf_loc in *. lia.
+Qed.
+
+(* E1: fragment, merge the locations, format each fragment: no slice expression out of range *)
+Lemma highlight_in_bounds : forall size orig ot,
+  0 < size -> Forall (fun l => 0 <= l_start l /\ wf_loc l) ot ->
+  exists fs, fragment size orig ot = Some fs /\
+    Forall (fun f => format_segs orig f (merge_overlapping (map Some ot)) <> None) fs.
+Proof.
+  intros size orig ot Hsz H. destruct (highlight_hyps ot H) as [Hnn Hwf].
+  destruct (fragment_ok size orig ot Hsz Hnn) as (fs & E & Hfs).
+  exists fs. split; [exact E|]. eapply Forall_impl; [|exact Hfs].
+  intros f Hf. apply format_in_bounds; [exact Hf|apply merge_wf; exact Hwf].
+Qed.
+
+(* E2: what comes out is the text of the fragment, and every marked span runs from the Start of a
+   matched location to the End of a matched location *)
+Lemma highlight_faithful : forall size orig ot fs f segs,
+  0 < size -> Forall (fun l => 0 <= l_start l /\ wf_loc l) ot ->
+  fragment size orig ot = Some fs -> In f fs ->
+  format_segs orig f (merge_overlapping (map Some ot)) = Some segs ->
+  plain_of segs = sub orig (f_start f) (f_end f) /\
+  Forall (fun sg => fst sg = true ->
+            exists a b, In a ot /\ In b ot /\ slice orig (l_start a) (l_end b) = Some (snd sg)) segs.
+Proof.
+  intros size orig ot fs f segs Hsz H Hfr Hin Hfmt.
+  destruct (highlight_hyps ot H) as [Hnn _].
+  pose proof (fragment_wf size orig ot fs Hsz Hnn Hfr) as Hwf.
+  rewrite Forall_forall in Hwf. specialize (Hwf f Hin). cbv beta in Hwf.
+  destruct (fragment_faithful orig f _ segs Hwf Hfmt) as [Hp Hm].
+  split; [exact Hp|]. eapply Forall_impl; [|exact Hm]. cbv beta. intros sg Hsg Ht.
+  destruct (Hsg Ht) as (l & Hl & Hs).
+  destruct (merge_ends _ _ Hl) as [(a & Ha & Hsa) (b & Hb & Heb)].
+  apply in_map_iff in Ha as (a' & Ea & Ha'). injection Ea as ->.
+  apply in_map_iff in Hb as (b' & Eb & Hb'). injection Eb as ->.
+  exists a, b. rewrite Hsa, Heb. auto.
+Qed.
+
+(* "abc def ghi jk", def and ghi matched, fragmentSize 5: " <def> " and "<ghi> j" *)
+Example highlight_ex :
+  0 < 5 /\ Forall (fun l => 0 <= l_start l /\ wf_loc l) hl_ex_locs /\
+  fragment 5 hl_ex_orig hl_ex_locs = Some [mkFrag 3 8; mkFrag 8 13] /\
+  map (fun f => format_segs hl_ex_orig f (merge_overlapping (map Some hl_ex_locs))) [mkFrag 3 8; mkFrag 8 13] =
+  [Some [(false, [32]); (true, [100; 101; 102]); (false, [32])];
+   Some [(false, []); (true, [103; 104; 105]); (false, [32; 106])]].
+Proof.
+  split; [lia|]. split; [|vm_compute; split; reflexivity].
+  repeat constructor; unfold wf_loc; cbn [l_start l_end]; lia.
+Qed.
